@@ -1679,6 +1679,30 @@ pub fn c14(rec: &mut Rec, rng: &mut Rng, thorough: bool) {
         let one_nomax = if max.is_some() { oneshot_op(rec, &bytes, None) } else { one.clone() };
         // the connection on the same slice
         let (mut d, s) = run_stream(rec, rng, limit, &[bytes.clone()], 0, 0);
+        // … and a connection that has ALREADY delivered a request (with connection options such as `Connection: close`
+        // among its headers) and is then fed the slice: between requests a connection is as good as new
+        if i % 4 == 2 {
+            // (a second connection next to `d`: the driver switches to its second model for the duration)
+            rec.op("swap", "ok");
+            let mut h = ConnDriver::new(rec, limit);
+            let opt = *rng.pick(&["close", "Close", "keep-alive", "close, x"]);
+            let earlier = format!("GET /earlier HTTP/1.1\r\nConnection: {}\r\nX-K: v\r\n\r\n", opt);
+            h.recv(rec, earlier.as_bytes(), 0);
+            let first = h.popall(rec);
+            h.stop_on_parse_error = true;
+            let rs = h.recv(rec, &bytes, 0);
+            let del: Vec<String> = h.popall(rec).iter().map(|x| x.text_nofiles.clone()).collect();
+            let err: Option<String> = rs.iter().find(|r| r.starts_with("parse(")).cloned();
+            let fresh_err = s.error.as_ref().map(|e| format!("parse({})", e));
+            if first.len() != 1 || del != s.delivered || err != fresh_err {
+                let mut l = h.log.clone();
+                l.push("# a new connection fed the same slice:".into());
+                l.extend(d.log.iter().cloned());
+                rec.oracle_fail("C14", &format!("a connection that has delivered an earlier request (Connection: {}) turns the slice into {:?} / {:?}, a new one into {:?} / {:?}", opt, del, err, s.delivered, fresh_err), &l);
+            }
+            rec.count("conn:slice-after-earlier-request");
+            rec.op("swap", "ok");
+        }
         // "nothing left over": a probe request sent afterwards is delivered intact
         let mut clean = false;
         if s.error.is_none() && d.conn.is_some() {
